@@ -119,6 +119,44 @@ func genC09(tier, out string, sum *Summary) {
 			check(e, d)
 		}
 	}
+	// deeply nested data (48 levels, a handful of nodes): whatever walks a value must walk it once, not once per
+	// level above it
+	{
+		nestObj := func(d int) any {
+			var v any = json.Number("1")
+			for i := 0; i < d; i++ {
+				v = map[string]any{"k": v}
+			}
+			return v
+		}
+		nestArr := func(d int) any {
+			var v any = json.Number("1")
+			for i := 0; i < d; i++ {
+				v = []any{v}
+			}
+			return v
+		}
+		nestMix := func(d int) any {
+			var v any = "leaf"
+			for i := 0; i < d; i++ {
+				if i%2 == 0 {
+					v = map[string]any{"k": v, "n": json.Number("1")}
+				} else {
+					v = []any{v, nil}
+				}
+			}
+			return v
+		}
+		for _, mk := range []func(int) any{nestObj, nestArr, nestMix} {
+			for _, d := range []int{12, 24, 48} {
+				doc := map[string]any{"a": mk(d), "b": mk(d), "c": mk(d - 1)}
+				for _, e := range []string{"a == b", "a != b", "a == c", "contains([a, c], b)", "[a] == [b]", "{x: a} == {x: b}", "to_string(a) == to_string(b)", "length(to_string(a))", "[a, b, c][?@ == $.a] | length(@)", "merge({x: a}, {x: b}).x == a",
+					"not_null(a) == b", "[a, b] | [0] == [1]", "sort_by([{v: a}, {v: b}], &to_string(v)) | length(@)", "a && b == a", "(a || b) == b", "type(a)", "a[]", "a.*", "to_array(a) == to_array(b)", "let $v = a in $v == b", "map(&(@ == $.a), [a, b, c])", "values({p: a, q: b})[0] == a", "group_by([{v: a}], &type(v))"} {
+					check(e, doc)
+				}
+			}
+		}
+	}
 	// every construct nested in itself through its operand: the cost must stay proportional to the
 	// depth (an operand evaluated twice per level doubles it at each level)
 	wrappers := []string{"(X)[:]", "(X)[*]", "(X)[]", "(X)[?`true`]", "(X)[::2]", "(X)[::-1]", "(X)[-3:]", "X[:]", "X[*]", "X[::1]", "X[?@]", "(X)[0:][*]",
